@@ -18,7 +18,8 @@ EXTENDS Naturals, Sequences, FiniteSets, TLC, SequencesExt, Json
 
 \* P1x: a profile registered under P1's name with P1's properties but WITHOUT macros of its own
 \* P5 redefines a TOKEN-level macro (uri), which the built-in profiles use as well
-Custom == {"P1", "P2", "P3", "P4", "P1x", "P5"}
+\* P6 has a property that is validated by a FUNCTION instead of a pattern (nothing to expand; it must survive every re-expansion)
+Custom == {"P1", "P2", "P3", "P4", "P1x", "P5", "P6"}
 Base(p) == IF p = "P1x" THEN "P1" ELSE p
 \* macros defined by each profile: macro name -> literal accepted by that version
 MacrosOf(p) == CASE p = "P1" -> [integer |-> "p1i", mynew |-> "p1n"]
@@ -35,9 +36,9 @@ EnvLit(names, m) ==
     IN  IF ds = {} THEN BaseLit(m) ELSE MacrosOf(names[CHOOSE i \in ds : \A j \in ds : j <= i])[m]
 
 \* probes: id -> [owner profile, macro used]   (B.z is also redefined by P4 with the literal pattern "p4z")
-ProbeIds == {"P1.a", "P1.b", "P2.a", "P2.c", "P3.b", "P3.a", "P4.a", "P5.a", "B.z", "B.fs", "B.bg", "B.color", "none"}
+ProbeIds == {"P1.a", "P1.b", "P2.a", "P2.c", "P3.b", "P3.a", "P4.a", "P5.a", "P6.f", "B.z", "B.fs", "B.bg", "B.color", "none"}
 Owner(id) == CASE id \in {"P1.a", "P1.b"} -> "P1" [] id \in {"P2.a", "P2.c"} -> "P2" [] id \in {"P3.a", "P3.b"} -> "P3"
-               [] id = "P4.a" -> "P4" [] id = "P5.a" -> "P5" [] id \in {"B.z", "B.fs", "B.bg", "B.color"} -> "B" [] OTHER -> "nobody"
+               [] id = "P4.a" -> "P4" [] id = "P5.a" -> "P5" [] id = "P6.f" -> "P6" [] id \in {"B.z", "B.fs", "B.bg", "B.color"} -> "B" [] OTHER -> "nobody"
 MacroOf(id) == CASE id \in {"P1.a", "P2.a", "P3.a", "P4.a", "B.z"} -> "integer"
                  [] id \in {"P1.b", "P3.b"} -> "mynew"
                  [] id \in {"P2.c", "B.fs"} -> "absolute_size"
@@ -48,11 +49,12 @@ Registered(names, p) == \E n \in Range(names) : Base(n) = p
 F(names, id) ==
     IF id = "none" THEN {}
     ELSE IF id = "B.color" THEN (IF Registered(names, "B") THEN {"red"} ELSE {})
+    ELSE IF id = "P6.f" THEN (IF Registered(names, "P6") THEN {"p6f"} ELSE {})
     ELSE IF id = "P1.b" /\ "P1x" \in Range(names) THEN {"p1x"}          \* the macro-less variant spells this pattern out
     ELSE (IF Registered(names, Owner(id)) THEN {EnvLit(names, MacroOf(id))} ELSE {})
          \cup (IF id = "B.z" /\ Registered(names, "P4") THEN {"p4z"} ELSE {})
 PropsOf(p) == CASE p \in {"P1", "P1x"} -> {"p1-a", "p1-b"} [] p = "P2" -> {"p2-a", "p2-c"} [] p = "P3" -> {"p3-a", "p3-b"}
-                [] p = "P4" -> {"p4-a", "z-index"} [] p = "P5" -> {"p5-a"} [] p = "B" -> {"z-index", "font-size", "color", "background-image"} [] OTHER -> {}
+                [] p = "P4" -> {"p4-a", "z-index"} [] p = "P5" -> {"p5-a"} [] p = "P6" -> {"p6-f"} [] p = "B" -> {"z-index", "font-size", "color", "background-image"} [] OTHER -> {}
 Known(names) == UNION {PropsOf(p) : p \in Range(names)}
 
 \* ---- reference semantics on contents ----------------------------------------------------------
